@@ -2004,3 +2004,16 @@ impl Reader {
       .unwrap_or_default()
   }
 }
+
+// Verification hook (C02): run the fragment garbage collection as if every assembly buffer had
+// timed out (FragmentAssembler::garbage_collect_before with a limit in the future).
+#[cfg(rustdds_verif)]
+impl Reader {
+  pub(crate) fn verif_c02_gc_fragments(&mut self) {
+    let expire_before = Timestamp::now() + Duration::from_secs(3600);
+    self
+      .fragment_assemblers
+      .iter_mut()
+      .for_each(|(_writer, fa)| fa.garbage_collect_before(expire_before));
+  }
+}
